@@ -182,10 +182,11 @@ def _norm(segs):
 
 class Seq:
     """immutable bit sequence"""
-    __slots__ = ('segs',)
+    __slots__ = ('segs', '_len')
 
     def __init__(self, segs=()):
         self.segs = tuple(_norm(segs))
+        self._len = None
 
     @staticmethod
     def from_int(v, w):
@@ -205,13 +206,21 @@ class Seq:
 
     def length(self):
         """python int or z3 term"""
+        if self._len is not None and (_is_c(self._len) or not any(isinstance(s, Opq) and s.buf.concrete_len() for s in self.segs)):
+            return self._len
         t = 0
+        sym = []
         for s in self.segs:
-            t = t + s.w
-        if not _is_c(t):
-            t = z3.simplify(t)
+            w = s.w
+            if _is_c(w):
+                t += w
+            else:
+                sym.append(w)
+        if sym:
+            t = z3.simplify(z3.Sum(sym) + t) if len(sym) > 1 or t else sym[0]
             if z3.is_int_value(t):
                 t = t.as_long()
+        self._len = t
         return t
 
     def concrete_len(self):
@@ -966,8 +975,12 @@ def ba2int(a, signed=False):
         raise TypeError(f"bitarray expected, got '{type(a).__name__}'")
     n = a._s.length()
     if not _is_c(n):
-        a._s.fix_lengths()
-        n = a._s.length()
+        # value of a bit string whose length is not fixed on this path: an unconstrained integer (sound
+        # over-approximation; the callers that reach this are short reads that go on to raise)
+        c = ctx()
+        if c.branch(n == 0):
+            raise ValueError('non-empty bitarray expected')
+        return SymInt(z3.Int(c.fresh('ba2int.symbolic-length')))
     if n == 0:
         raise ValueError('non-empty bitarray expected')
     v = a._s.value()
